@@ -1,13 +1,59 @@
-(* Props/C18.v -- property C18 (provisional instances on the generated layouts; the general theorems are being added) *)
-From Coq Require Import NArith List.
-From RP Require Import Gen.GenTables Model.Pgcopy Spec.SpecPgcopy.
+(* Props/C18.v -- property C18: a truncated table file is never loaded.  Every strict prefix of a
+   saved file is rejected by the loader -- exactly because a short read of the field count is an
+   error (X_LOADER_EOF_IS_ERROR = true in Gen/GenTables.v).
+   Statements use only Base/ Gen/ Model/ Spec/ definitions; proofs live in Proofs/. *)
+From Coq Require Import NArith ZArith List Bool.
+From RP Require Import Base.Bits Gen.GenTables Model.Codec Model.Pgcopy.
+From RP Require Import Spec.SpecCodec Spec.SpecPgcopy Spec.SpecTables.
+From RP Require Proofs.C17_Bytes Proofs.C17_Layout Proofs.C17_Pg Proofs.C17_Tables Proofs.C17_Examples.
 Import ListNotations.
 Open Scope N_scope.
-Definition ex_metric : list kv := [([5], [1065353216]); ([9], [3212836864])].
-Theorem C18_metric_instance :
-  load_metric (save_metric ex_metric) = LOk ex_metric /\
-  forallb (fun n => match load_metric (firstn n (save_metric ex_metric)) with LError => true | LOk _ => false end)
-          (seq 0 (length (save_metric ex_metric))) = true /\
-  columns_eqb PROFILE_WRITER_FIELDS PROFILE_COPY_COLUMNS = true.
-Proof. vm_compute. repeat split; reflexivity. Qed.
-Print Assumptions C18_metric_instance.
+
+Theorem C18_prefix_metric : forall t, wf_metric_table t ->
+  forall n, (n < length (save_metric t))%nat -> load_metric (firstn n (save_metric t)) = LError.
+Proof. exact C17_Tables.prefix_metric. Qed.
+Print Assumptions C18_prefix_metric.
+Example C18_metric_hyp : wf_metric_table C17_Examples.ex_metric.
+Proof. exact C17_Examples.ex_metric_wf. Qed.
+
+Theorem C18_prefix_lookup : forall t, wf_lookup_table t ->
+  forall n, (n < length (save_lookup t))%nat -> load_lookup (firstn n (save_lookup t)) = LError.
+Proof. exact C17_Tables.prefix_lookup. Qed.
+Print Assumptions C18_prefix_lookup.
+Example C18_lookup_hyp : wf_lookup_table C17_Examples.ex_lookup.
+Proof. exact C17_Examples.ex_lookup_wf. Qed.
+
+Theorem C18_prefix_profile : forall t, wf_profile_table t ->
+  forall n, (n < length (save_profile t))%nat -> load_profile (firstn n (save_profile t)) = LError.
+Proof. exact C17_Tables.prefix_profile. Qed.
+Print Assumptions C18_prefix_profile.
+Example C18_profile_hyp : wf_profile_table C17_Examples.ex_profile.
+Proof. exact C17_Examples.ex_profile_wf. Qed.
+
+Theorem C18_prefix_transitions : forall rows, Forall wf_transitions_row rows ->
+  (forall n, (n < length (save_bytes transitions_layout rows))%nat ->
+     load_transitions_rows (firstn n (save_bytes transitions_layout rows)) = LError) /\
+  load_transitions_rows (save_bytes transitions_layout rows) = LOk rows.
+Proof. exact C17_Tables.prefix_transitions. Qed.
+Print Assumptions C18_prefix_transitions.
+Example C18_transitions_hyp : Forall wf_transitions_row C17_Examples.ex_transitions.
+Proof. exact C17_Examples.ex_transitions_wf. Qed.
+
+(* generic form: any layout satisfying the side conditions, with the strict EOF rule *)
+Theorem C18_prefix_generic : forall L rows, layout_ok L -> l_strict L = true ->
+  Forall (fun r => length r = N.to_nat (l_nfields L)) rows ->
+  forall n, (n < length (save_bytes L rows))%nat ->
+  load_rows L (firstn n (save_bytes L rows)) = LError.
+Proof. exact C17_Layout.load_rows_prefix. Qed.
+Print Assumptions C18_prefix_generic.
+
+(* The theorem depends on the generated flag: with the original loaders' rule (l_strict = false:
+   `while reader.read_exact(..).is_ok()`), a 5-entry metric file cut at a row boundary (byte
+   85 = 19 + 3 * 22) loads as LOk of the first 3 entries; the repaired loader rejects it. *)
+Theorem C18_needs_strict_eof :
+  exists t n, wf_metric_table t /\ sorted_strict t /\ (n < length (save_metric t))%nat /\
+    load_with (lax metric_layout) metric_decode (firstn n (save_metric t)) = LOk (firstn 3 t) /\
+    (length (firstn 3 t) < length t)%nat /\
+    load_metric (firstn n (save_metric t)) = LError.
+Proof. exact C17_Examples.needs_strict_eof. Qed.
+Print Assumptions C18_needs_strict_eof.
